@@ -44,21 +44,22 @@ def plan(tier, seed):
                 % (k, npool),
         'bound': ', '.join('n=%d:u<=%d' % s for s in specs) + '; treebanks of <= %d trees' % k,
         'exhaustive': True,
-        'assumptions': ['export encoder of the harness is correct (selftest)'],
+        'assumptions': ['export encoder of the harness is correct (selftest)',
+                        'each tree is analysed again after root_attach and after deleting its first token (same objects)'],
     }
 
 
-def check_tree(mtj):
+def check_tree(mtj, order=None):
     mt = model.MT.from_json(mtj)
     out = []
-    case = {'mt': mtj}
+    case = {'mt': mtj, 'order': order}
 
     def bad(where, exp, got):
         out.append({'kind': 'gap-mismatch', 'where': where, 'case': case,
                     'detail': '%s: expected %r, got %r on %s' % (where, exp, got, model.mt_str(mt.root)),
                     'what': where + ' disagrees with the set-based definition'})
     try:
-        t = build(mt)
+        t = build(mt, child_order=order)
         degs = []
         stack = [(t, mt.root)]
         while stack:
@@ -109,6 +110,45 @@ def check_tree(mtj):
             bad('brackets-writer-refuses', tdeg > 0, refused)
         if not refused and stream.getvalue().count('\n') != 1:
             bad('brackets-writer-output', 'one line', stream.getvalue())
+        # re-analysis of the SAME tree object after in-place changes (non-initial states): the reported
+        # degrees must follow the tree, not remember earlier answers
+        from trees import transform
+        from ..bridge import extract, monitor as _monitor, all_nodes
+        live = build(mt, child_order=order)
+        for x in all_nodes(live):
+            treeanalysis.gap_degree_node(x)
+        treeanalysis.gap_degree(live)
+        for step in ('root_attach', 'delete_first_token'):
+            if step == 'root_attach':
+                live = transform.root_attach(live)
+            else:
+                if mt.n() < 2:
+                    break
+                first = [l for l in _leaves(live) if l.data['num'] == 1][0]
+                T.delete_terminal(live, first)
+            if _monitor(live):
+                break       # ill-formedness of these transformations is C04/C11/C12's business
+            now = extract(live)
+            for x in all_nodes(live):
+                exp = model.blocks_of(sorted(l.data['num'] for l in _leaves(x)))
+                got = treeanalysis.gap_degree_node(x)
+                if got != len(exp) - 1:
+                    bad('gap_degree_node after ' + step, len(exp) - 1, got)
+                if x.children:
+                    blocks = [[l.data['num'] for l in b] for b in T.terminal_blocks(x)]
+                    if blocks != exp:
+                        bad('terminal_blocks after ' + step, exp, blocks)
+            exp_deg = model.mt_tree_gap_degree(now.root)
+            if treeanalysis.gap_degree(live) != exp_deg:
+                bad('gap_degree after ' + step, exp_deg, treeanalysis.gap_degree(live))
+            stream2 = io.StringIO()
+            try:
+                treeoutput.brackets(build(now), stream2)
+                refused2 = False
+            except ValueError:
+                refused2 = True
+            if refused2 != (exp_deg > 0):
+                bad('brackets-writer-refuses after ' + step, exp_deg > 0, refused2)
         # disco_order on binary trees
         if model.max_arity_of(_shape(mt.root)) <= 2:
             for mode in ('left', 'rightd'):
@@ -220,7 +260,7 @@ def check_case(case):
     with quiet():
         if 'bank' in case:
             return check_bank(case['bank'])
-        return check_tree(case['mt'])
+        return check_tree(case['mt'], case.get('order'))
 
 
 def run_chunk(chunk):
@@ -240,7 +280,7 @@ def run_chunk(chunk):
             return res
         for sh, k in sweep.iter_shapes(chunk):
             mt = model.simple_mt(sh)
-            vs = check_tree(mt.to_json())
+            vs = check_tree(mt.to_json(), None if res.evals % 2 else 'rev')
             res.evals += 1
             d = model.mt_tree_gap_degree(mt.root)
             if d > 0:
